@@ -62,7 +62,7 @@ def reader_release(ctx):
     rng = ctx.rng
     docs = []
     for _ in range(30 if ctx.tier == "quick" else 400):
-        S = gen_pil.make_system(rng)
+        S = gen_pil.make_system(rng, p_strand_notation=0.3, p_composite=0.6)
         docs.append(gen_pil.render(S, rng, layout=True, order=gen_pil.shuffled_order(S, rng)))
     res = run_impl([("read_pil_release", [t]) for t in docs])
     bad = 0
